@@ -150,6 +150,7 @@ static void do_run(char **w, int n)
 	struct archive *a = archive_read_new();
 	archive_read_support_filter_all(a);
 	archive_read_support_format_all(a);
+	if (strcmp(kv(w, n, "raw"), "1") == 0) archive_read_support_format_raw(a);   /* filter-only streams */
 	int r = ARCHIVE_OK, fd = -1; FILE *fp = NULL; pid_t feeder = 0;
 	memset(&S, 0, sizeof S);
 	S.p = buf; S.len = len; S.rng = 88172645463325252ULL;
@@ -291,6 +292,8 @@ static void do_make(char **w, int n)
 	if (r != ARCHIVE_OK) { printf("bad-op"); archive_write_free(a); return; }
 	archive_write_set_bytes_per_block(a, 10240);
 	archive_write_set_bytes_in_last_block(a, 1);
+	if (strcmp(fmt, "raw") == 0 && strcmp(filt, "bzip2") == 0)
+		archive_write_set_filter_option(a, "bzip2", "compression-level", "1");   /* several 100k blocks */
 	r = archive_write_open(a, &sk, NULL, sink_write, NULL);
 	static const long sizes[] = {0, 1, 10, 511, 512, 513, 1000, 4095, 5000, 10240, 70001};
 	int tarlike = strstr(fmt, "tar") || strstr(fmt, "pax") || strstr(fmt, "ustar") || strstr(fmt, "cpio") || strstr(fmt, "newc") || strstr(fmt, "odc");
@@ -310,6 +313,7 @@ static void do_make(char **w, int n)
 			name[k] = 0;
 		} else snprintf(name, sizeof name, isar ? "f%d.o" : "dir%d/file_%d.dat", isar ? i : i % 3, i);
 		long sz = sizes[xr(&rng) % (sizeof sizes / sizeof sizes[0])];
+		if (israw) sz = 200000 + (long)(xr(&rng) % 150000);    /* multi-block streams */
 		archive_entry_set_pathname(e, name);
 		archive_entry_set_mtime(e, 1000000000 + i * 3600, 0);
 		archive_entry_set_uid(e, 1000 + i % 3); archive_entry_set_gid(e, 100);
@@ -320,6 +324,12 @@ static void do_make(char **w, int n)
 		else if (tarlike && kind == 2 && first[0]) { archive_entry_set_filetype(e, AE_IFREG); archive_entry_set_perm(e, 0644); archive_entry_set_hardlink(e, first); sz = 0; }
 		else { archive_entry_set_filetype(e, AE_IFREG); archive_entry_set_perm(e, 0644 | (i % 2 ? 0111 : 0)); if (!first[0] && strlen(name) < 60) snprintf(first, sizeof first, "%s", name); }
 		archive_entry_set_size(e, sz);
+		if (strstr(fmt, "pax") && xr(&rng) % 3 == 0) {
+			/* extended header body larger than one tar block */
+			static char big[700]; for (int k = 0; k < 700; k++) big[k] = (char)('a' + (k + i) % 26);
+			archive_entry_xattr_add_entry(e, "user.verif.big", big, sizeof big);
+			archive_entry_xattr_add_entry(e, "user.verif.small", "v", 1);
+		}
 		int sparse = (strstr(fmt, "pax") || strstr(fmt, "gnutar")) && sz >= 4095 && xr(&rng) % 2 == 0;
 		if (sparse) { archive_entry_sparse_add_entry(e, 512, 1024); archive_entry_sparse_add_entry(e, sz - 600, 100); }
 		r = archive_write_header(a, e);
